@@ -73,7 +73,7 @@ func ohitHooks(sr *sqlRoots, name string, hooks *absint.Hooks) {
 		if !okR {
 			return
 		}
-		where := core.Short(ret.String())
+		where := retLabel(ret)
 		length := absint.StrLenOf(rc.In)
 		// hits found in this step
 		type hp struct {
